@@ -14,7 +14,8 @@ def run(tier):
     for shape in range(3):
         for op0 in range(16):
             conds.append(Cond("h_tree.py", "bookkeeping", to, twin="reach" if (op0 in (5, 9, 11) and shape == 0) else None,
-                              path_timeout=to / 2, env={"H_OP0": str(op0), "H_SHAPE": str(shape), "H_OPS": "2" if q else "3"}))
+                              path_timeout=to / 2, env=dict({"H_OP0": str(op0), "H_SHAPE": str(shape), "H_OPS": "2" if q else "3"},
+                                                            **({"H_MAXARG": "4", "H_LATER": "0,1,2,3,6,7,11,13"} if q else {}))))
     run.run_conditions(conds, conformance_harnesses=["h_tree.py"])
     run.encoded = ["DerivationTree.add_child/set_children/symbol.setter/sender.setter/recipient.setter/invalidate_hash/__hash__/__eq__/"
                    "size/deepcopy/__getitem__/split_end/prefix/replace/replace_multiple/get_choices_path/find_all_nodes/flatten/value",
@@ -24,7 +25,7 @@ def run(tier):
     run.bounds = {"initial trees": "3 shapes (<= 7 nodes; one with sender, one mixing 'x' / b'x' / bit leaves)",
                   "operations": "16 codes: add_child, set_children, symbol=, sender=, recipient=, deepcopy, slicing/indexing, selector searches, "
                                 "value/hash, split_end, prefix, replace, crossover, mutation, switch current tree, path accessors",
-                  "sequence length": 2 if q else 3, "operand": "node index 0..6 (mod size)"}
+                  "sequence length": 2 if q else 3, "operand": "node index 0..4 (quick) / 0..6 (mod size)", "later operations (quick)": "add_child, set_children, symbol=, sender=, slicing, searches, replace, mutation"}
     run.outside = ["longer operation sequences", "RepetitionBoundsSuggestion repairs (see C01 operator harness)",
                    "parser-produced trees (ParserDerivationTree skips size updates by design)"]
     run.assumptions = ["finite operand domains -> the engine exhausts the sequences by path splitting",
